@@ -22,7 +22,8 @@ RULE = ("a case is one tracker process + 1-3 client processes and a seeded scrip
         "UNREGISTER over <= 4 files and <= 2 folders (folders containing tracked files and nested tracked folders), resources removed by their owner while still registered, directories registered as files, salted with malformed lines (garbage, "
         "non-ASCII, unknown type, unknown command, decrement / unregister of unknown names), clients exiting normally or "
         "SIGKILLed at seeded positions, then end of input; the disk is compared with a ref-count model after every "
-        "synchronised request and after the tracker exited; distinct_nontrivial counts distinct scripts with at least "
+        "synchronised request and after the tracker exited; plus end-to-end runs (loky Parallel call with memmapped arguments, parent exiting or "
+        "SIGKILLed during / between / after calls: the temp folder must vanish once parent and workers are gone); distinct_nontrivial counts distinct scripts with at least "
         "one deletion and one malformed or unbalanced request")
 ASSUMPTIONS = [
     "synchronisation: a sentinel file registered and MAYBE_UNLINKed by the driver after a request disappears only after "
@@ -32,15 +33,121 @@ ASSUMPTIONS = [
     "a sentinel still present after 20 s while the tracker is alive counts as 'not deleted at zero'; a dead tracker as 'tracker stopped'",
 ]
 SHARDS = {"quick": 10, "thorough": 14}
-FLOORS = {"quick": {"scripts": 120, "requests_checked": 1500, "malformed_requests": 200, "clients_killed": 40, "deletions_at_zero": 150},
-          "thorough": {"scripts": 2500, "requests_checked": 40000, "malformed_requests": 4000, "clients_killed": 800, "deletions_at_zero": 3000}}
+FLOORS = {"quick": {"e2e_runs": 6, "scripts": 120, "requests_checked": 1500, "malformed_requests": 200, "clients_killed": 40, "deletions_at_zero": 150},
+          "thorough": {"e2e_runs": 50, "scripts": 2500, "requests_checked": 40000, "malformed_requests": 4000, "clients_killed": 800, "deletions_at_zero": 3000}}
 CLIENT = os.path.join(harness.VERIF, "checks", "c20_client.py")
+
+
+NEEDS_DEPS = ["numpy"]
+E2E = os.path.join(harness.VERIF, "checks", "c20_e2e_child.py")
 
 
 def cases(tier, seed):
     n = 140 if tier == "quick" else 3000
     for i in range(n):
         yield dict(i=i)
+    for i in range(10 if tier == "quick" else 80):
+        yield dict(i=i, e2e=True)
+
+
+def pid_alive(pid):
+    try:
+        with open(f"/proc/{pid}/stat") as f:
+            return f.read().rsplit(")", 1)[1].split()[0] != "Z"
+    except OSError:
+        return False
+
+
+def run_e2e(case, ctx):
+    """the tracker through joblib itself: a loky Parallel call whose big argument is memmapped into a temp folder;
+    the parent exits normally or is SIGKILLed at a seeded instant; once the parent and every worker are gone the folder
+    and every file in it must be gone too (and must not vanish while a call still uses it)"""
+    rng = harness.rng_for(ctx.seed, ID, "e2e", case["i"])
+    d = harness.mkscratch("vjl-c20e-")
+    try:
+        temp = os.path.join(d, "mm")
+        os.makedirs(temp)
+        mode = rng.choice(["normal", "kill-during-call", "kill-between-calls", "kill-after-calls"])
+        cfg = dict(dir=d, temp=temp, calls=2, tasks=4, dur=0.15, idle=2, linger=3 if mode == "kill-after-calls" else 0)
+        cf = os.path.join(d, "cfg.json")
+        with open(cf, "w") as f:
+            json.dump(cfg, f)
+        log = open(os.path.join(d, "child.log"), "wb")
+        p = subprocess.Popen([harness.PY, E2E, cf], stdin=subprocess.DEVNULL, stdout=log, stderr=log,
+                             env=harness.child_env({"VERIF_USE_DEPS": "1"}), start_new_session=True)
+        ctx.evaluated()
+        desc = dict(mode=mode)
+        t0 = time.monotonic()
+        killed = False
+        saw_folder = False
+        while time.monotonic() - t0 < 60:
+            entries = os.listdir(temp)
+            saw_folder = saw_folder or bool(entries)
+            if mode == "kill-during-call" and entries and os.path.exists(os.path.join(d, "pids.txt")) and \
+                    len(open(os.path.join(d, "pids.txt")).read().splitlines()) >= 2 + rng.randint(0, 2):
+                killed = True
+            elif mode == "kill-between-calls" and os.path.exists(os.path.join(d, "call0.done")):
+                killed = True
+            elif mode == "kill-after-calls" and os.path.exists(os.path.join(d, "done")):
+                killed = True
+            if killed:
+                time.sleep(rng.choice([0, 0.01, 0.05]))
+                try:
+                    os.kill(p.pid, signal.SIGKILL)
+                except OSError:
+                    pass
+                break
+            if p.poll() is not None:
+                break
+            time.sleep(0.005)
+        try:
+            p.wait(60)
+        except subprocess.TimeoutExpired:
+            ctx.inconclusive("e2e-child-stuck", desc)
+            return
+        log.close()
+        if mode == "normal" and p.returncode != 0:
+            ctx.inconclusive("e2e-child-failed", open(os.path.join(d, "child.log"), errors="replace").read()[-400:])
+            return
+        pids = set()
+        memmapped = 0
+        try:
+            for line in open(os.path.join(d, "pids.txt")).read().splitlines():
+                a = line.split()
+                pids.add(int(a[0]))
+                memmapped += a[1] == "1"
+        except OSError:
+            pass
+        if not saw_folder or not memmapped:
+            ctx.inconclusive("e2e-no-memmapping-observed", desc)
+            return
+        # wait for every client of the tracker (parent and workers) to be gone, then for the clean-up
+        t1 = time.monotonic()
+        while any(pid_alive(x) for x in pids) and time.monotonic() - t1 < 40:
+            time.sleep(0.05)
+        if any(pid_alive(x) for x in pids):
+            ctx.inconclusive("e2e-clients-still-alive", dict(desc, alive=[x for x in pids if pid_alive(x)]))
+            return
+        t2 = time.monotonic()
+        while os.listdir(temp) and time.monotonic() - t2 < 20:
+            time.sleep(0.05)
+        ctx.count("e2e_runs")
+        ctx.count(f"e2e_{mode}")
+        left = os.listdir(temp)
+        if left:
+            trackers = [x for x in harness.descendants(p.pid) if pid_alive(x)]
+            if trackers:
+                ctx.inconclusive("e2e-tracker-still-running", dict(desc, left=left[:3], procs=trackers))
+            else:
+                ctx.violation("e2e:temp-folder-leaked", f"after the parent ({mode}) and all loky workers were gone and no process of the session is left, "
+                                                        f"the memmapping folder is still there: {left[:3]}", dict(desc, left=left[:5]))
+        ctx.sig(("e2e", mode, killed, len(pids)))
+    finally:
+        try:
+            harness.kill_session(p.pid)
+        except Exception:  # noqa
+            pass
+        shutil.rmtree(d, ignore_errors=True)
 
 
 class Client:
@@ -72,6 +179,8 @@ class Client:
 
 
 def run_case(case, ctx):
+    if case.get("e2e"):
+        return run_e2e(case, ctx)
     rng = harness.rng_for(ctx.seed, ID, case["i"])
     d = harness.mkscratch("vjl-c20-")
     tracker = None
